@@ -138,7 +138,12 @@ fn one_upload(r: &mut Report, rng: &mut Rng, shard: usize, schema: &refcodec::la
         .map(|(id, off)| Reply {
             variant: "RequestForData".into(),
             bytes: WfCodec::request(Some(*id), Some(*off), true, true),
-            item_debug: format!("RequestForData(RequestForData {{ tlv: Some(WriteData {{ file: Some(File {{ file_id: Some({id}), file_offset: Some({off}), file_size: None, payload: None }}) }}) }})"),
+            item_debug: item_debug(
+                "RequestForData",
+                "feig::packets::RequestForData",
+                &WfCodec::request(Some(*id), Some(*off), true, true),
+                &format!("RequestForData {{ tlv: Some(WriteData {{ file: Some(File {{ file_id: Some({id}), file_offset: Some({off}), file_size: None, payload: None }}) }}) }}"),
+            ),
             answer: WfCodec::data_block(*id, *off, slice_of(&files[id], *off, block)),
         })
         .collect();
@@ -218,7 +223,7 @@ fn one_upload(r: &mut Report, rng: &mut Rng, shard: usize, schema: &refcodec::la
 fn make_final(sd: &refcodec::tables::StreamDef, pools: &Pools, rng: &mut Rng, variant: &str) -> Reply {
     let key = variant_key(sd, variant);
     let (bytes, dbg) = pools.pick(rng, key).clone();
-    Reply { variant: variant.to_string(), bytes, item_debug: format!("{variant}({dbg})"), answer: ACK.to_vec() }
+    Reply { variant: variant.to_string(), item_debug: item_debug(variant, key, &bytes, &dbg), bytes, answer: ACK.to_vec() }
 }
 
 pub fn run(ctx: &Ctx) -> i32 {
